@@ -17,7 +17,8 @@ E_ENV = "environment model of the node (DESIGN Appendix C): account handles by s
 PROPS = {
     "C01": dict(profiles=[P("transfers", 3000, 100000)], fields=["status", "diff", "xf"],
                 assumptions=[E_ENV, "destination is never the system account 0xff..ff (global-settings store)"]),
-    "C02": dict(profiles=[P("supply", 3000, 80000)], fields=["status", "diff"], oracle_props=["C02"],
+    # a transfer that changes a world total is a supply violation too (the oracle files it under C01)
+    "C02": dict(profiles=[P("supply", 3000, 80000), P("transfers", 1500, 30000)], fields=["status", "diff"], oracle_props=["C02", "C01"],
                 assumptions=[E_ENV]),
     "C03": dict(profiles=[P("authority", 3000, 80000)], fields=["status", "diff"],
                 assumptions=[E_ENV, "hand-over messages are delivered with caller = previous holder (as the repository's own cross-shard test does)"]),
